@@ -89,8 +89,15 @@ func (m *c16M) prepareCall(f *c16Frame, call *ast.CallExpr) (fn c16Val, recv c16
 			sig = t
 		}
 	}
-	for _, a := range call.Args {
-		args = append(args, c16Copy(m.eval(f, a)))
+	if inner, ok := c16SingleCallArg(call); ok && sig != nil && sig.Params().Len() > 1 { // f(g()) spreading the results of g
+		if t, isTuple := f.info.TypeOf(inner).(*types.Tuple); isTuple {
+			args = append(args, m.evalMulti(f, inner, t.Len())...)
+		}
+	}
+	if args == nil {
+		for _, a := range call.Args {
+			args = append(args, c16Copy(m.eval(f, a)))
+		}
 	}
 	if sig != nil && sig.Variadic() && !call.Ellipsis.IsValid() {
 		fixed := sig.Params().Len() - 1
@@ -222,6 +229,7 @@ func (m *c16M) invoke(fn *types.Func, recv c16Val, args []c16Val, at token.Pos) 
 func (m *c16M) run(fr *c16Frame, ft *ast.FuncType, recvList *ast.FieldList, body *ast.BlockStmt, sig *types.Signature, recv c16Val, args []c16Val, at token.Pos) c16Val {
 	m.depth++
 	defer func() { m.depth-- }()
+	fr.nres = sig.Results().Len()
 	bind := func(id *ast.Ident, v c16Val) {
 		if id.Name != "_" {
 			fr.vars[fr.info.Defs[id]] = &c16Cell{v: v}
@@ -320,4 +328,13 @@ func (m *c16M) dispatch(fn *types.Func, recv c16Val, args []c16Val, at token.Pos
 		v = c16Copy(p.load())
 	}
 	return m.invoke(target, v, args, at)
+}
+
+// c16SingleCallArg: the call has exactly one argument and it is itself a call.
+func c16SingleCallArg(call *ast.CallExpr) (*ast.CallExpr, bool) {
+	if len(call.Args) != 1 {
+		return nil, false
+	}
+	inner, ok := ast.Unparen(call.Args[0]).(*ast.CallExpr)
+	return inner, ok
 }
